@@ -13,8 +13,8 @@ K (correspondence)
       history must equal the one read off the trace (lock-acquisition order, real results), and the model's final
       cache must equal the real `_entries`.
 O (direct oracle, Python, from the property text; cross-checked against the Lean spec's executable monitor)
-  replay safety of the real results in lock-acquisition order (clock readings; and true time when the clock is
-  monotone), an order-free variant that needs no lock events, and size <= capacity at every observation
+  replay safety of the real results in lock-acquisition order (clock readings; and, when the clock is monotone,
+  true time: a call that RETURNS inside the window of an accepted nonce must have been rejected), an order-free variant that needs no lock events, and size <= capacity at every observation
   (after each call, at the end, and — observer thread — in the middle of other threads' critical sections).
 """
 
@@ -314,7 +314,9 @@ def analyse(cfg: dict[str, Any], run: Any) -> dict[str, Any]:
             locks.add(ev[2])
             p = pending.get(tid)
             if p is not None and p["lin"] is None:
-                p["lin"] = {"tid": tid, "now": p["now"], "nonce": p["nonce"], "res": None, "time": clock}
+                # tacq: true time of the lock acquisition (the model's linearisation time); time: true time at which
+                # the call returned — the oracle only demands rejection of calls that END inside the window
+                p["lin"] = {"tid": tid, "now": p["now"], "nonce": p["nonce"], "res": None, "tacq": clock, "time": clock}
                 hist.append(p["lin"])
             events.append(["acq", tid])
         elif k == "rel":
@@ -327,6 +329,7 @@ def analyse(cfg: dict[str, Any], run: Any) -> dict[str, Any]:
             else:
                 if p["lin"] is not None:
                     p["lin"]["res"] = ev[3]
+                    p["lin"]["time"] = clock
                 calls.append({"tid": tid, "now": p["now"] if p["now"] is not None else clock, "nonce": p["nonce"], "res": ev[3],
                               "time": clock, "locked": p["lin"] is not None})
             events.append(["ret", tid, ev[3]])
@@ -394,7 +397,7 @@ def judge(ctx: Any, R: Any, cfg: dict[str, Any], run: Any, an: dict[str, Any], m
         ctx.mismatch(case, {"rejected_event": an["events"][idx] if idx is not None and idx < len(an["events"]) else idx},
                      an["events"], "trace is not a run of the Lean transition system")
         return
-    want = [[h["tid"], h["now"], h["nonce"], h["res"], h["time"]] for h in an["hist"]]
+    want = [[h["tid"], h["now"], h["nonce"], h["res"], h["tacq"]] for h in an["hist"]]
     if model["hist"] != want:
         ctx.mismatch(case, model["hist"], want, "linearised history: model vs trace")
     if model["st"] != final:
